@@ -320,6 +320,19 @@ func TestC05Rapid(t *testing.T) {
 					alone = fmt.Sprintf("%T(%v)", true, re.MatchString(lit.S))
 				}
 			}
+		case 4:
+			// an operator directly over a path whose last step stacks a boolean and a positional
+			// predicate: the position tables of such a step are the state an evaluation tree
+			// carries; whoever recycles trees between Evaluate calls shows it here
+			pp := g.AxisPath(ctx, xgen.PathOpts{MaxSteps: 2, AbsShare: 5, DSlash: 3})
+			if last, ok := pp.Steps[len(pp.Steps)-1].(*xast.Step); ok {
+				last.Preds = append(last.Preds, g.BoolPred(nil, 0), g.PosPred())
+			}
+			if rapid.Bool().Draw(rt, "arith") {
+				e = &xast.Bin{Op: "+", L: pp, R: &xast.Num{Lit: "1"}}
+			} else {
+				e = &xast.Bin{Op: rapid.SampledFrom([]string{"=", "!="}).Draw(rt, "cmpop"), L: pp, R: &xast.Str{S: rapid.SampledFrom([]string{"1", "t", ""}).Draw(rt, "cmplit")}}
+			}
 		case 1:
 			e = &xast.Call{Name: "string-join", Args: []xast.Expr{g.AxisPath(ctx, xgen.PathOpts{MaxSteps: 2, AbsShare: 4, DSlash: 3}), &xast.Str{S: ","}}}
 		default:
